@@ -52,6 +52,15 @@ CHECKS = {
         'Type/Value/KeyError and leave to_json unchanged. Exploration, not proof.',
         'Type check on; transforms/regex not generated; independent predicate is conservative (answers unknown for unmodelled conversions); frozen modelled for primitives, lists of primitives, schema-less dicts.',
         'DESIGN.md section 3 C03'),
+    'C04': (
+        'algebraic-law PBT over related spec pairs (Hypothesis) + exhaustive Int-range / List-size lattices',
+        'Generated pairs of value specs (b derived from a by one or more parameter perturbations, or unrelated) with candidate '
+        'values from valid and near-miss samplers of both: apply idempotent and spec-preserving, default acceptable, '
+        'is_compatible sound on sampled values, extend() result narrower than the base, keeps an acceptable default and stays '
+        'compatible with the base. All ordered pairs of an Int-range x noneable x frozen lattice and of a List-size lattice are '
+        'enumerated in every run. Exploration: containment is witnessed by sampled boundary values, not proved.',
+        'Regex excluded (documented as unchecked); acceptance = apply does not raise Type/Value/KeyError; Dict/Object extension compared on nested specs.',
+        'DESIGN.md section 3 C04'),
 }
 
 NOT_BUILT = 'check not built yet in this round (planned; see DESIGN.md section 3)'
